@@ -155,3 +155,65 @@ func HarnessTwoCalls() {
 	verif.Assert(string(h2.got) == string(p2), "second-call-own-bytes")
 	verif.Reach("two-calls-done")
 }
+
+type LH struct {
+	aDrained chan struct{}
+	bHolds   chan struct{}
+	aDone    chan struct{}
+	late     int
+	lateErr  error
+	gotB     []byte
+}
+
+// Linger drains its reader, waits until the other call holds its reader, then reads once more.
+func (h *LH) Linger(ctx context.Context, r io.Reader) (int, error) {
+	b, _ := io.ReadAll(r)
+	close(h.aDrained)
+	<-h.bHolds
+	buf := make([]byte, 8)
+	h.late, h.lateErr = r.Read(buf)
+	close(h.aDone)
+	return len(b), nil
+}
+
+// Plain signals that it holds its reader, waits for the late read of the other call, then reads everything.
+func (h *LH) Plain(ctx context.Context, r io.Reader) (int, error) {
+	close(h.bHolds)
+	<-h.aDone
+	b, _ := io.ReadAll(r)
+	h.gotB = b
+	return len(b), nil
+}
+
+type LC struct {
+	Linger func(ctx context.Context, r io.Reader) (int, error)
+	Plain  func(ctx context.Context, r io.Reader) (int, error)
+}
+
+// HarnessLateRead: a read after end-of-stream on one call, made while another
+// reader-carrying call is in progress, returns no data, and the other call still
+// sees exactly its own bytes.
+func HarnessLateRead() {
+	h := &LH{aDrained: make(chan struct{}), bHolds: make(chan struct{}), aDone: make(chan struct{})}
+	upload, dec := httpio.ReaderParamDecoder()
+	srv := jsonrpc.NewServer(dec)
+	srv.Register("R", h)
+	base := verif.MountHTTP(upload)
+	var c LC
+	closer, err := jsonrpc.NewMergeClient(context.Background(), "http://server/rpc", "R", []interface{}{&c}, nil,
+		jsonrpc.WithHTTPClient(hx.HTTPClient(srv)), httpio.ReaderParamEncoder(base+"/upload"))
+	verif.Assert(err == nil, "client-created")
+	defer closer()
+	pa := verif.Bytes("pa", 2)
+	pb := verif.Bytes("pb", 3)
+	done := 0
+	go func() { c.Linger(context.Background(), bytes.NewReader(pa)); done++ }()
+	<-h.aDrained
+	verif.Quiesce() // the first upload request has completed; only now does the second call start
+	go func() { c.Plain(context.Background(), bytes.NewReader(pb)); done++ }()
+	verif.Quiesce()
+	verif.Assert(done == 2, "both-calls-return")
+	verif.Assert(h.late == 0 && h.lateErr != nil, "read-after-end-of-stream-returns-no-data")
+	verif.Assert(string(h.gotB) == string(pb), "other-call-sees-exactly-its-own-bytes")
+	verif.Reach("late-read-done")
+}
